@@ -37,7 +37,7 @@ def _populations():
 
 
 POPS = _populations()
-EXTRA = {"quick": 20000, "thorough": 400000}
+EXTRA = {"quick": 20000, "thorough": 2400000}
 
 
 class _Runs(dict):
